@@ -348,4 +348,17 @@ def signature(world):
             sig.add("zero_runtime")
     if any(g.get("release_policy") == "closed_loop" for g in world["workload"]["graphs"]):
         sig.add("closed_loop")
+    # known finding FTG3: a conditional with a DIRECT edge to its own join, in a run where a policy can cancel tasks
+    direct = False
+    for g in world["workload"]["graphs"]:
+        nodes = {n["name"]: n for n in g["graph"]}
+        for n in g["graph"]:
+            if n.get("conditional") and any(nodes.get(c, {}).get("terminal") for c in n.get("children", [])):
+                direct = True
+    f = world["flags"]
+    fz = world.get("fuzz")
+    cancels = bool(f.get("enforce_deadlines")) or bool(f.get("drop_skipped_tasks")) or bool(fz and fz.get("p_cancel", 0) > 0) \
+        or (not fz and (f.get("scheduler") in PLANNERS or f.get("scheduler") == "Clockwork"))
+    if direct and cancels:
+        sig.add("join_direct_edge_cancelling")
     return sig
